@@ -24,6 +24,11 @@ T = TypeVar("T")
 logger = logging.getLogger(__name__)
 
 
+def _register_value_name(graph: _core.Graph, value: _core.Value) -> None:
+    """Tell the graph's name authority about the name of a value that joins the graph."""
+    graph._name_authority.register_value_name(value.name)
+
+
 class _GraphIO(collections.UserList["_core.Value"]):
     """The inputs and outputs of a Graph."""
 
@@ -196,6 +201,7 @@ class GraphInputs(_GraphIO):
         self._ref_counter[value] += 1
         value._is_graph_input = True
         value._graph = self._graph
+        _register_value_name(self._graph, value)
 
     def _maybe_unset_graph(self, value: _core.Value) -> None:
         """Unset the graph for the value."""
@@ -238,6 +244,7 @@ class GraphOutputs(_GraphIO):
         self._ref_counter[value] += 1
         value._is_graph_output = True
         value._graph = self._graph
+        _register_value_name(self._graph, value)
 
     def _maybe_unset_graph(self, value: _core.Value) -> None:
         """Unset the graph for the value."""
@@ -278,6 +285,7 @@ class GraphInitializers(collections.UserDict[str, "_core.Value"]):
         self._check_value(value)
         value._is_initializer = True
         value._graph = self._graph
+        _register_value_name(self._graph, value)
 
     def _maybe_unset_graph(self, value: _core.Value) -> None:
         """Unset the graph for the value."""
